@@ -437,6 +437,7 @@ pub fn run(tier: Tier) -> Report {
     merge_sub(&mut rep, "C05", super::c04::run_c05(q));
     merge_sub(&mut rep, "C06", super::c06::run(q));
     merge_sub(&mut rep, "C08", super::c08::run(q));
+    merge_sub(&mut rep, "C09", super::c09::run(q));
     merge_sub(&mut rep, "C10", super::c03::run_c10(q));
     merge_sub(&mut rep, "C18", super::c18::run(q));
     merge_sub(&mut rep, "C19", super::c19::run(q));
@@ -448,7 +449,7 @@ pub fn run(tier: Tier) -> Report {
         xdump(&p);
     }
     rep.bound = format!(
-        "this build configuration x the {} alphabets of C01-C06, C08, C10, C18, C19; plus (fastmath not requested) 9 curves x 2 directions on the C03 stratum against the 5e-5 exact-math budget and powf/cbrtf/expf on 2^20 bit patterns x 12 exponents against libm; plus a cross-build dump of {} output sections",
+        "this build configuration x the {} alphabets of C01-C06, C08, C09 (4:4:4, 8 and 10 bit), C10, C18, C19; plus (fastmath not requested) 9 curves x 2 directions on the C03 stratum against the 5e-5 exact-math budget and powf/cbrtf/expf on 2^20 bit patterns x 12 exponents against libm; plus a cross-build dump of {} output sections",
         if tier == Tier::Quick { "matrix-tier (reduced quick)" } else { "full quick" },
         14 * 2 + 2 + 84 + 84 + 22 + 14
     );
